@@ -30,6 +30,7 @@ def own_fold(content, sig, dataset):
   it.allocate_tensors()
   ema = {}
   for d in dataset:
+    it.reset_all_variables()        # every sample is seen from the model's initial state (stateful operators: RNN hidden state)
     interp.run_signature(it, sig['key'], d)
     for name, (det, v) in interp.all_tensors(it, interp.subgraph_index(it, sig['key'])).items():
       if v.size == 0 or v.dtype.kind not in 'fiu':
@@ -85,6 +86,11 @@ def run_case(ctx, case, rng):
     from vf.props import c15
     n_sub = 1
     spec, tied = c15.build(rng, 'same_tensor' if rng.random() < 0.7 else 'tied_embedding', int(rng.integers(2, 4)))
+  elif case % 64 == 7:
+    # directed: a stateful operator (variable tensor) in the SECOND of two signatures (KF-CALIBRATE-VARIABLE-TENSOR-IN-OTHER-SUBGRAPH)
+    n_sub = 2
+    spec = models.t_stateful_two_signatures(rng)
+    ctx.count('stateful_two_signature_cases')
   else:
     spec = models.model_for_case(rng, multi_sub_p=0.0, alias_p=0.0) if n_sub == 1 else models.rand_model(rng, n_sub=n_sub)
   n = int(rng.integers(1, 7))
@@ -112,7 +118,8 @@ def run_case(ctx, case, rng):
   try:
     full = calibrate_seq(qt, spec, [datasets])
   except Exception as e:  # pylint: disable=broad-except
-    ctx.violation('calibrate_raised', {'exc': common.exc_signature(e)[:80], 'multi_signature': n_sub > 1}, base)
+    ctx.violation('calibrate_raised', {'exc': common.exc_signature(e)[:80], 'multi_signature': n_sub > 1,
+                                       'variable_tensor_in_model': 'stateful_op' in spec.classes}, base)
     return {}
   ctx.count('calibrations')
   # ---- reference fold per signature
